@@ -90,7 +90,7 @@ def check_layout(ctx, facts):
     ctx.floor("C06.1", "allocator layout sites", n, 4)
 
 
-def check_scan(ctx, facts):
+def check_scan(ctx, facts, rid="C06.2"):
     b = facts.body("walrus::Walrus::startup_chore")
     F = "walrus::Walrus::startup_chore"
     MAXF = facts.const_val("config::MAX_FILE_SIZE")
@@ -102,7 +102,7 @@ def check_scan(ctx, facts):
             if fmtfeat.const_eval(eb) == MAXF and ea[0] == "Add" and fmtfeat.const_eval(ea[2]) == D:
                 header = T
     if header is None:
-        ctx.anchor_missing("C06.2", "unit loop `block_offset + DEFAULT_BLOCK_SIZE <= MAX_FILE_SIZE` in startup_chore")
+        ctx.anchor_missing(rid, "unit loop `block_offset + DEFAULT_BLOCK_SIZE <= MAX_FILE_SIZE` in startup_chore")
         return
     hb = header.bb
     loop = b.natural_loop(hb)
@@ -112,7 +112,7 @@ def check_scan(ctx, facts):
         hb = b.idom[hb]
         loop = b.natural_loop(hb)
     if not loop or header.bb not in loop:
-        ctx.anchor_missing("C06.2", "natural loop of the unit scan")
+        ctx.anchor_missing(rid, "natural loop of the unit scan")
         return
     exits = b.loop_exits(loop)
     n_bad = 0
@@ -136,7 +136,7 @@ def check_scan(ctx, facts):
         # an exit that is an error return is a different matter (C07.2); a plain break ends the scan of this file
         n_bad += 1
         key = re.sub(r"[^A-Za-z0-9_=<>.]+", "-", desc)[:60]
-        ctx.violate("C06.2", F, "scan-stops-at-unparseable-unit:" + key, b.relfile, b.term(u)["line"],
+        ctx.violate(rid, F, "scan-stops-at-unparseable-unit:" + key, b.relfile, b.term(u)["line"],
                     "the unit loop is left (`break`) when %s: recovery stops scanning this file, although later units may hold live blocks (units are handed out whether or not they "
                     "are ever written, e.g. a writer created for a topic whose first append was rejected); everything after the unreadable unit is lost after a restart" % desc)
     # positive: the branch that skips a unit with an invalid header advances and continues
@@ -146,13 +146,13 @@ def check_scan(ctx, facts):
             if e[0] == "Add" and fmtfeat.const_eval(e[2]) == D:
                 n_skip += 1
     if n_skip >= 2:
-        ctx.ok("C06.2", F, "the unit loop has %d `advance by one unit` sites (skip + normal step)" % n_skip, b.relfile, b.term(header.bb)["line"])
+        ctx.ok(rid, F, "the unit loop has %d `advance by one unit` sites (skip + normal step)" % n_skip, b.relfile, b.term(header.bb)["line"])
     if n_bad == 0:
-        ctx.ok("C06.2", F, "no exit from the unit loop other than its condition", b.relfile, b.term(header.bb)["line"])
-    ctx.floor("C06.2", "blocks in the unit loop", len(loop), 50)
+        ctx.ok(rid, F, "no exit from the unit loop other than its condition", b.relfile, b.term(header.bb)["line"])
+    ctx.floor(rid, "blocks in the unit loop", len(loop), 50)
 
 
-def check_entry_scan_bound(ctx, facts):
+def check_entry_scan_bound(ctx, facts, rid="C06.3"):
     b = facts.body("walrus::Walrus::startup_chore")
     F = "walrus::Walrus::startup_chore"
     D = facts.const_val("config::DEFAULT_BLOCK_SIZE")
@@ -183,6 +183,7 @@ def check_entry_scan_bound(ctx, facts):
         if off is not None:
             advanced.add(off)
         bound = None
+        weak = None
         for T in all_tests(b):
             if T.kind != "cmp" or T.bb not in L or T.op not in ("Ge", "Gt", "Lt", "Le"):
                 continue
@@ -193,15 +194,27 @@ def check_entry_scan_bound(ctx, facts):
                 continue
             if not (T.true_edge in exits or T.false_edge in exits):
                 continue
+            # the edge on which the scan goes on must imply offset < D (strictly: at offset == D the next unit begins)
+            op = T.op if (la in advanced) else {"Lt": "Gt", "Le": "Ge", "Gt": "Lt", "Ge": "Le"}[T.op]
+            cont_edge = T.false_edge if T.true_edge in exits else T.true_edge
+            cont_when_true = cont_edge == T.true_edge
+            strict = (op == "Lt" and cont_when_true) or (op == "Ge" and not cont_when_true)
+            if not strict:
+                weak = T
+                continue
             if all(b.dominates(T.bb, u) for u in back_src):
                 bound = T
         if bound is not None:
-            ctx.ok("C06.3", F, "the entry scan leaves the unit when its read offset reaches DEFAULT_BLOCK_SIZE", b.relfile, b.term(bound.bb).get("line"))
+            ctx.ok(rid, F, "the entry scan leaves the unit when its read offset reaches DEFAULT_BLOCK_SIZE", b.relfile, b.term(bound.bb).get("line"))
+        elif weak is not None:
+            ctx.violate(rid, F, "entry-scan-bound-off-by-one", b.relfile, b.term(weak.bb).get("line"),
+                        "the entry scan of a recovered unit goes on when its read offset EQUALS DEFAULT_BLOCK_SIZE: for a unit filled to its last byte the next read is the first "
+                        "entry of the following unit, which is then counted into this block as well as recovered as a block of its own")
         else:
-            ctx.violate("C06.3", F, "entry-scan-not-bounded-by-unit", b.relfile, c.line,
+            ctx.violate(rid, F, "entry-scan-not-bounded-by-unit", b.relfile, c.line,
                         "the loop that scans the entries of one recovered unit can iterate again without having compared its read offset with DEFAULT_BLOCK_SIZE: a unit filled to its "
                         "last byte is scanned on into the following unit, whose entries are then recovered twice or under the wrong topic")
-    ctx.floor("C06.3", "entry-scan loops in startup_chore", n, 1)
+    ctx.floor(rid, "entry-scan loops in startup_chore", n, 1)
 
 
 def check_scan_stride(ctx, facts, rid="C06.5"):
